@@ -1,5 +1,6 @@
 import OxiddModel.Util.Proto
 import OxiddModel.Circuit.Model
+import OxiddModel.Circuit.Aiger
 
 /-!
 Line protocol `circ` for `Circuit::simplify` (see `harness/src/bin/c18_circuit.rs`):
@@ -87,10 +88,51 @@ def render : Except Err (Circuit × Array Lit) → String
   | .error .panicBitset => "panic bitset"
   | .error .fuel => "model-fuel-exhausted"
 
+def hexVal? (c : Char) : Option Nat :=
+  if c.isDigit then some (c.toNat - '0'.toNat)
+  else if 'a' ≤ c ∧ c ≤ 'f' then some (c.toNat - 'a'.toNat + 10)
+  else if 'A' ≤ c ∧ c ≤ 'F' then some (c.toNat - 'A'.toNat + 10)
+  else none
+
+def hexBytes? : List Char → Option (List Nat)
+  | [] => some []
+  | [_] => none
+  | a :: b :: rest =>
+    match hexVal? a, hexVal? b, hexBytes? rest with
+    | some x, some y, some r => some ((16 * x + y) :: r)
+    | _, _, _ => none
+
+/-- `aigand <ninputs> <hex>`: the single AND gate of the binary AIGER file
+`aig <n+1> <n> 0 0 1` followed by the bytes -/
+def stepAigAnd (ws : List String) : String :=
+  match ws with
+  | [_, n, hex] =>
+    if n.length > 6 then "bad-op" else
+    match parseNat? n.toList, (if hex = "-" then some [] else
+        if hex.length > 64 then none else hexBytes? hex.toList) with
+    | some n, some bytes =>
+      let terms := bytes.filter (· < 128)
+      -- only prefixes of exactly two 7-bit integers
+      let lastTerm : Bool := match bytes.getLast? with
+        | some b => decide (b < 128)
+        | none => false
+      if terms.length > 2 || (terms.length == 2 && !lastTerm) then
+        "bad-op"
+      else
+        match Aiger.decodeAnd (2 * (n + 1)) bytes with
+        | some ((a, b), _) =>
+          "ok " ++ showLit (Aiger.makeLiteral (n + 1) a) ++ " " ++ showLit (Aiger.makeLiteral (n + 1) b)
+        | none => "err"
+    | _, _ => "bad-op"
+  | _ => "bad-op"
+
 def stepLine (cfg : Cfg) (line : String) : String :=
-  match parseLine? line with
-  | some (c, roots) => render (simplify cfg c roots)
-  | none => "bad-op"
+  match words line with
+  | "aigand" :: ws => stepAigAnd ("aigand" :: ws)
+  | _ =>
+    match parseLine? line with
+    | some (c, roots) => render (simplify cfg c roots)
+    | none => "bad-op"
 
 /-- the code as it is in `/repo` -/
 def proto : Proto := { σ := Unit, init := (), step := fun s l => (s, stepLine Cfg.repo l) }
